@@ -506,6 +506,14 @@ func c01Corpus() []namedFile {
 		}
 	}
 	// fuzz seeds of the repository's font-level fuzz target
+	// files other producers write that the library's own writer does not: a legacy kern table and no GPOS
+	// (the reader turns it into a GPOS table), for a glyf and a CFF font
+	for _, kind := range []int{gen.KindGlyf, gen.KindCFF} {
+		f, _ := FontFromChoices(gen.FontOpts{NoMeta: true, NoLayout: true}, kind, 2, 0, 0, 1)
+		if b, err := writeFont(f); err == nil {
+			files = append(files, namedFile{"generated " + gen.KindNames[kind] + " font + kern table", addTable(b, "kern", kernTable([]kernSub{{coverage: 1, pairs: map[[2]uint16]int16{{1, 2}: -50, {2, 1}: 30}}}))})
+		}
+	}
 	return files
 }
 
